@@ -86,6 +86,17 @@ func (ec *ErrorCause) croppedJSON() []byte {
 		return nil
 	}
 
+	// the crop limits raw string lengths; JSON escaping (quotes, control characters) can still expand the
+	// strings beyond the limit: shorten them further until the marshalled document fits
+	for length := (MaxErrorCauseSizeBytes - paddingForFieldNames) / 4; len(validErrorCauseJSON) > MaxErrorCauseSizeBytes && length > 0; length /= 2 {
+		cause := compactor.cause()
+		cause.Message = cropString(cause.Message, length)
+		cause.WorkingDir = cropString(cause.WorkingDir, length)
+		if validErrorCauseJSON, err = json.Marshal(cause); err != nil {
+			return nil
+		}
+	}
+
 	return validErrorCauseJSON
 }
 
